@@ -21,6 +21,7 @@ class LinenCounter(nn.Module):
   partitioned param"""
   col: str = 'batch_stats'
   boxed: bool = False
+  late: bool = False     # sows into a collection that does not exist after init
 
   @nn.compact
   def __call__(self, x):
@@ -30,6 +31,8 @@ class LinenCounter(nn.Module):
     c = self.variable(self.col, 'count', lambda: 0)
     if self.is_mutable_collection(self.col):
       c.value = c.value + 1
+    if self.late and not self.is_initializing():
+      self.sow('intermediates', 'seen', x)
     wv = w.value
     return x * wv + c.value
 
@@ -89,14 +92,15 @@ class Registry:
     return False
 
 
-def tonnx_behaves_like_linen(ci, boxed, nested, x, w, c, calls, mut):
+def tonnx_behaves_like_linen(ci, boxed, nested, x, w, c, calls, mut, late=False):
   """ToNNX(module)(x) == module.apply(variables held by the wrapper, x); each
   collection is stored under the matching Variable type; mutable updates are
   propagated into the wrapper's state"""
   col = pick(COLS, ci)
   with Registry():
     nested = pick([0, 1, 2], nested)
-    lin = (LinenCounter(col=col, boxed=bool(boxed)), LinenNested(), LinenDeep())[nested]
+    lin = (LinenCounter(col=col, boxed=bool(boxed), late=bool(late)), LinenNested(),
+           LinenDeep())[nested]
     if nested:
       col = 'batch_stats'
     m = bridge.ToNNX(lin)
@@ -125,8 +129,9 @@ def tonnx_behaves_like_linen(ci, boxed, nested, x, w, c, calls, mut):
            if k not in ('module', 'rngs', '_object__state')})
       before = _held_variables(m)
       if mut:
-        got = m(x, mutable=[col])
-        want, upd = lin.apply(variables, x, mutable=[col])
+        mcols = [col, 'intermediates'] if late else [col]
+        got = m(x, mutable=mcols)
+        want, upd = lin.apply(variables, x, mutable=mcols)
         cc = cc + 1
         # the wrapper's state afterwards: what it held, with the updates merged in
         # at every depth -- nothing else is dropped, renamed or changed
@@ -352,7 +357,7 @@ def obligations(tier):
   v = I(-3, 3)
   return [
       Ob('tonnx_behaves_like_linen', tonnx_behaves_like_linen,
-         dict(ci=I(0, len(COLS) - 1), boxed=B(), nested=I(0, 2), x=v, w=v, c=v,
+         dict(ci=I(0, len(COLS) - 1), boxed=B(), nested=I(0, 2), late=B(), x=v, w=v, c=v,
               calls=I(1, 2 if quick else 3), mut=B()),
          split=('ci', 'boxed', 'nested', 'mut'), timeout=900, funcs=F,
          per_path_timeout=90.0,
